@@ -355,6 +355,16 @@ class Runner:
         for (g2, b, k, o) in calls:
             if g2 is not None and k - 1 < len(outc_obs[g2][b - 1]["f"]):
                 outc_obs[g2][b - 1]["f"][k - 1] = o
+        narrow = draw["dtype"] in ("float16", "bfloat16") or draw["dtype"] != draw.get("pdtype", draw["dtype"])
+        if raised == "value" and narrow:
+            # a factor matrix overflowed while accumulating a FINITE gradient (huge parameters fed back by weight decay, 16-bit / float32
+            # statistics): for the specification that is the environment's outcome "this step's statistic of the block is non-finite"
+            for gi in range(self.ng):
+                for (b, name), t_ in self._tensors[gi].items():
+                    if name.startswith("fac"):
+                        tt = t_.to_local() if hasattr(t_, "to_local") else t_
+                        if not bool(torch.isfinite(tt.detach().float()).all()) and b in self._active[gi]:
+                            outc_obs[gi][b - 1]["inf"] = True
         self.trace.append({"ev": "Step", "present": present, "outc": outc_obs, "obs": obs_all})
         # ---- numeric reference, driven by the spec's control decisions ----
         if self.numeric and expected is not None and not self.poisoned:
